@@ -88,6 +88,10 @@ def main(argv):
     except ImportError as e:
         print("no check for %s: %s" % (prop, e), file=sys.stderr)
         return 2
+    except Exception:
+        traceback.print_exc()
+        print("MACHINERY-ERROR %s: the check module does not import" % prop, file=sys.stderr)
+        return 2
     meta = mod.META
     ctx = Ctx(prop, a.tier, seed, a.jobs)
     try:
